@@ -43,21 +43,34 @@ Print Assumptions C02_chunk_lookup_unique.
 
 (* read_exact (generic form, for reuse): for ANY chunk lookup that satisfies the lookup contract for a file of
    [zlen data] bytes, ANY notion of honest cache that is sound for Get and closed under inserting true chunk bytes,
-   ANY underlying reader that returns the true chunk bytes and keeps the cache honest: one ReadAt(p, offset) returns
+   ANY underlying reader that returns the true chunk bytes and keeps the cache honest, ANY interference [env] that keeps
+   the cache honest and acts between the cache operations of the call: one ReadAt(p, offset) returns
    exactly data[offset : offset + min(len p, n - offset)] and leaves the cache honest. No panic, no error, terminates. *)
 Theorem C02_read_exact_generic :
   forall (id : nat) (lookup : Z -> option chunk) (under : cache -> chunk -> option (bytes * cache))
-         (data : bytes) (Hon : cache -> Prop),
+         (env : nat -> bool -> cache -> cache) (data : bytes) (Hon : cache -> Prop),
     LookupSpec lookup (zlen data) ->
     (forall c o s v, Hon c -> c (id, o, s) = Some v -> v = slice o s data) ->
     (forall c o s, Hon c -> Hon (cadd c (id, o, s) (slice o s data))) ->
+    (forall k b c, Hon c -> Hon (env k b c)) ->
     (forall c ch, Hon c -> 0 <= c_off ch -> 0 <= c_size ch -> c_off ch + c_size ch <= zlen data ->
         exists c', under c ch = Some (slice (c_off ch) (c_size ch) data, c') /\ Hon c') ->
     forall c offset plen, Hon c -> 0 <= offset -> 0 <= plen ->
-      exists c' tr', read_at id lookup under c offset plen
+      exists c' tr', read_at id lookup under env c offset plen
                      = (ROk (slice offset (Z.min plen (zlen data - offset)) data), c', tr') /\ Hon c'.
 Proof. exact read_at_exact. Qed.
 Print Assumptions C02_read_exact_generic.
+
+(* schedules: a read whose cache operations are interleaved with ARBITRARY honest interference (concurrent readers,
+   prefetch, background fetch, evictions: before every probe and between every fetch and its insertion) is exact *)
+Theorem C02_read_exact_under_interference :
+  forall L i (env : nat -> bool -> cache -> cache) c off len,
+    LayerOK L -> Honest L c -> (forall k b c0, Honest L c0 -> Honest L (env k b c0)) -> 0 <= off -> 0 <= len ->
+    exists c' tr, read_file_env L i env c off len
+                  = (ROk (slice off (Z.min len (zlen (f_data (file_at L i)) - off)) (f_data (file_at L i))), c', tr)
+                  /\ Honest L c'.
+Proof. exact read_file_env_exact. Qed.
+Print Assumptions C02_read_exact_under_interference.
 
 (* read_exact: for every layer whose files have tiling chunk tables, every honest cache state (whatever was read,
    prefetched, cached or evicted before), every file, offset and length: the read returns exactly the slice of the
@@ -140,6 +153,13 @@ Theorem C02_last_duplicate_wins :
 Proof. intros tar e Hr Hk. exact (conj (last_duplicate_wins tar e Hr) (last_duplicate_node tar e Hr Hk)). Qed.
 Print Assumptions C02_last_duplicate_wins.
 
+(* ... in general: an entry whose name no later entry of the archive repeats is the one that is served *)
+Theorem C02_last_of_name_wins :
+  forall l1 e l2, reserved (cname e) = false -> Forall (fun x => cname x <> cname e) l2 ->
+    find_ent (dedup (l1 ++ e :: l2)) (cname e) = Some e.
+Proof. exact last_of_name_wins. Qed.
+Print Assumptions C02_last_of_name_wins.
+
 (* view: a missing parent is a directory rwxr-xr-x owned by root *)
 Theorem C02_implicit_parent :
   forall es p, find_ent es p = None -> existsb (path_eqb p) (all_paths es) = true ->
@@ -172,6 +192,16 @@ Proof.
   split; [exact (honest_empty _)|].
   split; [|vm_compute; reflexivity].
   repeat constructor; try (cbn; discriminate); try exact (honest_on_honest _ _).
+Qed.
+
+(* an adversary that empties the cache before every probe and refills it with all chunks before every insertion *)
+Example C02_nonvacuous_interference :
+  let env := fun (_ : nat) (b : bool) (c : cache) => if b then cempty else add_honest exL c (layer_keys exL) in
+  (forall k b c0, Honest exL c0 -> Honest exL (env k b c0)) /\
+  fst (fst (read_file_env exL 0 env cempty 2 7)) = ROk [3; 4; 5; 6; 7; 8; 9]%N.
+Proof.
+  split; [|vm_compute; reflexivity].
+  intros k b c0 H. destruct b; [exact (honest_empty _)|exact (honest_add_honest _ _ _ H)].
 Qed.
 
 Example C02_nonvacuous_table :
